@@ -215,7 +215,7 @@ def main(tier, seed):
                 continue
             for h in itertools.product(menu if dpt < 3 else menu[:6], repeat=dpt):
                 hist.append({"dataset": nm, "ops": list(h)})
-    m = core.run_space(rep, core.ListSpace("fit_histories", hist, note="all operation sequences up to depth %d" % depth), judge_history, chunk=4)
+    m = core.run_space(rep, core.ListSpace("fit_histories", hist, note="all operation sequences up to depth %d" % depth), judge_history, chunk=4, determinism_probe=0)
     rep.note("max_history_depth", depth)
     rep.note("operations_in_menu", len(OPS))
     vsets = ["MeOH_DMC", "EtOH_ETBE"] if q else ["MeOH_DMC", "EtOH_ETBE", "H2O_AceticAcid", "MeOH_MTBE", "MeOH_Toluene", "H2O_MeOH", "H2O_iPOH", "H2O_EtOH"]
@@ -227,7 +227,7 @@ def main(tier, seed):
             vcases.append({"dataset": vs, "methods": list(UQ.FITTING_ALGS), "repeat": "Powell", "complete": True})
     if q:
         vcases.append({"dataset": "MeOH_DMC", "methods": list(UQ.FITTING_ALGS), "repeat": None, "complete": True})
-    core.run_space(rep, core.ListSpace("vle_fits", vcases), judge_vle, chunk=1)
+    core.run_space(rep, core.ListSpace("vle_fits", vcases), judge_vle, chunk=1, determinism_probe=0)
     fcases = []
     for al in (1e-3, 2.5, 40.0):
         for a in ((), (1.3,), (1.3, -0.4), (0.2, -1.1, 0.7)):
